@@ -62,6 +62,10 @@ type Case struct {
 	RefEmbedCert  bool   `json:"ref_embed_cert,omitempty"`
 	RefWrap       int    `json:"ref_wrap,omitempty"`        // base64 line length (0 = one line)
 	RefSibling    bool   `json:"ref_sibling,omitempty"`     // ref2sp: EncryptedKey next to EncryptedData
+	RefPrefix     string `json:"ref_prefix,omitempty"`      // "" (xenc:/ds:) | default (xmlenc as default namespace, dsig:) | other (e:/sig:)
+	RefExtras     bool   `json:"ref_extras,omitempty"`      // optional schema parts without key material: KeySize, Recipient, KeyName, CarriedKeyName, EncryptionProperties, MimeType
+	RefIndent     bool   `json:"ref_indent,omitempty"`      // pretty-printed document (white space between elements)
+	RefKeyRef     bool   `json:"ref_key_ref,omitempty"`     // ref2sp sibling layout: EncryptedData/KeyInfo/RetrievalMethod URI="#<Id of the EncryptedKey>"
 	RefDefaultMGF bool   `json:"ref_default_mgf,omitempty"` // xmlenc11 rsa-oaep: no xenc11:MGF element, mask function = the W3C default MGF1-SHA-1
 	RefStdURI     bool   `json:"ref_std_uri,omitempty"`     // spell SHA-256/512/RIPEMD-160 with the W3C xmlenc# identifiers (don't-care: not in the package's registry)
 	Marker        string `json:"marker,omitempty"`          // idp2ref / ref2sp: the NameID that must come out
@@ -314,6 +318,28 @@ func reparse(el *etree.Element) (*etree.Element, error) {
 	return r, err
 }
 
+// wire serialises a reference-built element the way the case says (compact or
+// pretty-printed) and parses it again.
+func (c Case) wire(el *etree.Element) (*etree.Element, error) {
+	doc := etree.NewDocument()
+	doc.SetRoot(el.Copy())
+	if c.RefIndent {
+		doc.Indent(2)
+	}
+	buf, err := doc.WriteToBytes()
+	if err != nil {
+		return nil, err
+	}
+	d2 := etree.NewDocument()
+	if err := d2.ReadFromBytes(buf); err != nil {
+		return nil, err
+	}
+	if d2.Root() == nil {
+		return nil, fmt.Errorf("no root after reparse")
+	}
+	return d2.Root(), nil
+}
+
 func (c Case) pkgRSA() (xmlenc.RSA, error) {
 	var e xmlenc.RSA
 	switch c.Transport {
@@ -391,7 +417,13 @@ func (c Case) refOptions() refenc.Options {
 	o := refenc.Options{
 		BlockAlg: blockURI(c.Block), IV: c.IV, ContentKey: c.Key, PadFiller: c.Filler,
 		Rand: newStream(c.Seed, "ref"), EmbedCert: c.RefEmbedCert, WrapBase64: c.RefWrap, Sibling: c.RefSibling,
-		ID: "_ref-data", KeyID: "_ref-key",
+		ID: "_ref-data", KeyID: "_ref-key", Extras: c.RefExtras, KeyIDRef: c.RefKeyRef && c.RefSibling,
+	}
+	switch c.RefPrefix {
+	case "default":
+		o.XencPrefix, o.DsPrefix = "-", "dsig"
+	case "other":
+		o.XencPrefix, o.DsPrefix = "e", "sig"
 	}
 	switch c.Transport {
 	case "oaep-mgf1p":
@@ -474,10 +506,17 @@ func classes(c Case) []string {
 		cl = append(cl, "rsa:"+c.RSAKey)
 	}
 	if pkgEncrypts(c.Dir) && c.Dir != "idp2ref" {
-		if c.NonceNil {
+		switch bs := blockSize(c.Block); {
+		case c.NonceNil:
 			cl = append(cl, "nonce:library-generated")
-		} else {
+		case c.Block == "aes128-gcm":
 			cl = append(cl, "nonce:supplied")
+		case len(c.Nonce) < bs:
+			cl = append(cl, "nonce:supplied", "nonce:cbc-shorter-than-block")
+		case len(c.Nonce) == bs:
+			cl = append(cl, "nonce:supplied", "nonce:cbc-block-size")
+		default:
+			cl = append(cl, "nonce:supplied", "nonce:cbc-longer-than-block")
 		}
 	}
 	if len(c.Tail) > 0 && len(c.Tail) <= c.PlainLen {
@@ -500,7 +539,19 @@ func classes(c Case) []string {
 			cl = append(cl, "ref:default-mgf")
 		}
 		if c.Digest == "absent" {
-			cl = append(cl, "ref:no-digestmethod(dont-care)")
+			cl = append(cl, "ref:no-digestmethod")
+		}
+		if c.RefPrefix != "" {
+			cl = append(cl, "ref:prefix-"+c.RefPrefix)
+		}
+		if c.RefExtras {
+			cl = append(cl, "ref:optional-schema-parts")
+		}
+		if c.RefIndent {
+			cl = append(cl, "ref:indented")
+		}
+		if c.RefKeyRef && c.RefSibling {
+			cl = append(cl, "ref:retrieval-method")
 		}
 	}
 	if c.PtrDigest {
@@ -525,7 +576,10 @@ func wellFormed(c Case) bool {
 	default:
 		return false
 	}
-	if c.PlainLen < 0 || c.PlainLen > 1<<20 {
+	if c.PlainLen < 0 || c.PlainLen > 1<<20 || len(c.Nonce) > 4096 {
+		return false
+	}
+	if c.RefPrefix != "" && c.RefPrefix != "default" && c.RefPrefix != "other" {
 		return false
 	}
 	if c.Transport == "direct" || c.Dir == "ref2pkg" || c.Dir == "ref2sp" {
@@ -556,7 +610,10 @@ func wellFormed(c Case) bool {
 				return false
 			}
 		case "oaep11":
-			if d != "sha1" && d != "sha256" && d != "sha512" {
+			if d != "sha1" && d != "sha256" && d != "sha512" && d != "absent" {
+				return false
+			}
+			if d == "absent" && pkgEncrypts(c.Dir) {
 				return false
 			}
 		case "pkcs1":
@@ -620,7 +677,7 @@ func check(c Case) pbt.Result {
 		if err != nil {
 			panic("harness: reference encryption failed: " + err.Error())
 		}
-		el, err := reparse(rel)
+		el, err := c.wire(rel)
 		if err != nil {
 			panic("harness: " + err.Error())
 		}
@@ -628,7 +685,9 @@ func check(c Case) pbt.Result {
 			panic(fmt.Sprintf("harness: reference does not round-trip with itself: %v", err))
 		}
 		out, err := c.pkgDecrypt(el)
-		dontCare := c.RefStdURI && c.Transport != "pkcs1" && c.Transport != "direct" && c.Digest != "sha1" || c.Digest == "absent"
+		// An omitted ds:DigestMethod means SHA-1 (xmlenc-core 1.1 section 5.5.2; the package's own
+		// RSA.Decrypt says so too): the reference used SHA-1, so the package must open it.
+		dontCare := c.RefStdURI && c.Transport != "pkcs1" && c.Transport != "direct" && c.Digest != "sha1" && c.Digest != "absent"
 		if dontCare {
 			if err != nil && strings.HasPrefix(err.Error(), "PANIC") {
 				return fail(c, "package Decrypt of a reference ciphertext: %v", err)
@@ -814,6 +873,9 @@ func checkSP(c Case, ok pbt.Result) pbt.Result {
 	resp.AddChild(ea)
 	rdoc := etree.NewDocument()
 	rdoc.SetRoot(resp)
+	if c.RefIndent {
+		rdoc.Indent(2)
+	}
 	buf, err := rdoc.WriteToBytes()
 	if err != nil {
 		panic(err)
@@ -839,7 +901,7 @@ func checkSP(c Case, ok pbt.Result) pbt.Result {
 		}
 		return err
 	})
-	dontCare := c.RefStdURI && c.Transport != "pkcs1" && c.Digest != "sha1" || c.Digest == "absent"
+	dontCare := c.RefStdURI && c.Transport != "pkcs1" && c.Digest != "sha1" && c.Digest != "absent"
 	if dontCare {
 		if err != nil && strings.HasPrefix(err.Error(), "PANIC") {
 			return fail(c, "ParseXMLResponse: %v", err)
@@ -900,13 +962,13 @@ func gen(t *rapid.T) Case {
 		if c.Dir == "ref2sp" && c.Transport == "direct" {
 			c.Transport, c.Digest = "oaep-mgf1p", "sha1"
 		}
-		if c.Transport == "oaep-mgf1p" {
-			switch rapid.IntRange(0, 9).Draw(t, "digest-variant") {
+		if c.Transport == "oaep-mgf1p" || c.Transport == "oaep11" {
+			switch rapid.IntRange(0, 7).Draw(t, "digest-variant") {
 			case 0:
-				if pkgEncrypts(c.Dir) {
+				if !pkgEncrypts(c.Dir) {
+					c.Digest = "absent" // reference: SHA-1, ds:DigestMethod omitted
+				} else if c.Transport == "oaep-mgf1p" {
 					c.Digest = "default"
-				} else {
-					c.Digest = "absent"
 				}
 			}
 		}
@@ -976,8 +1038,14 @@ func gen(t *rapid.T) Case {
 		if rapid.IntRange(0, 3).Draw(t, "wrap") == 0 {
 			c.RefWrap = rapid.SampledFrom([]int{64, 76, 4}).Draw(t, "wrap-len")
 		}
+		c.RefPrefix = rapid.SampledFrom([]string{"", "", "default", "other"}).Draw(t, "prefix")
+		c.RefExtras = rapid.IntRange(0, 2).Draw(t, "extras") == 0
+		c.RefIndent = rapid.IntRange(0, 2).Draw(t, "indent") == 0
 		if c.Dir == "ref2sp" {
 			c.RefSibling = rapid.Bool().Draw(t, "sibling")
+			if c.RefSibling {
+				c.RefKeyRef = rapid.Bool().Draw(t, "key-ref")
+			}
 		}
 	} else {
 		c.NonceNil = rapid.Bool().Draw(t, "nonce-nil")
@@ -985,7 +1053,19 @@ func gen(t *rapid.T) Case {
 			if s.GCM {
 				c.Nonce = genBytes(t, 12, "nonce")
 			} else {
-				c.Nonce = rapid.SliceOfN(rapid.Byte(), 0, 20).Draw(t, "nonce")
+				// documented as unused by CBC: any length, in particular longer than a block
+				var n int
+				switch rapid.IntRange(0, 3).Draw(t, "nonce-len-class") {
+				case 0:
+					n = rapid.IntRange(0, bs-1).Draw(t, "nonce-len")
+				case 1:
+					n = bs
+				case 2:
+					n = rapid.SampledFrom([]int{bs + 1, 12, 16, 24, 2 * bs, 2*bs + 1, 32, 33}).Draw(t, "nonce-len")
+				default:
+					n = rapid.IntRange(bs+1, 5*bs).Draw(t, "nonce-len")
+				}
+				c.Nonce = genBytes(t, n, "nonce")
 			}
 		}
 	}
@@ -999,7 +1079,12 @@ func enumLengths(block string, rsaKeys []string) func(string, func(Case)) {
 		s, _ := refenc.Spec(blockURI(block))
 		bs := blockSize(block)
 		for _, dir := range []string{"self", "pkg2ref", "ref2pkg"} {
-			for _, cb := range pkgCombos {
+			combos := pkgCombos
+			if dir == "ref2pkg" {
+				// what only a foreign implementation can present: ds:DigestMethod omitted (= SHA-1)
+				combos = append(append([]combo{}, pkgCombos...), combo{"oaep-mgf1p", "absent"}, combo{"oaep11", "absent"})
+			}
+			for _, cb := range combos {
 				keys := rsaKeys
 				if cb.transport == "direct" {
 					keys = []string{""}
@@ -1020,10 +1105,17 @@ func enumLengths(block string, rsaKeys []string) func(string, func(Case)) {
 							c.Filler = expand(seed, "filler", bs-1)
 							c.RefEmbedCert = cb.transport != "direct" && n%2 == 0
 							c.RefDefaultMGF = cb.transport == "oaep11" && n%4 >= 2
+							c.RefPrefix = []string{"", "default", "other"}[n%3]
+							c.RefExtras = n%5 == 1
+							c.RefIndent = n%7 == 2
 						} else {
 							c.NonceNil = n%2 == 0
 							if !c.NonceNil {
-								c.Nonce = expand(seed, "nonce", 12)
+								nl := 12
+								if !s.GCM {
+									nl = []int{12, bs, bs + 1, 2 * bs, 33, 0, bs - 1}[(n/2)%7]
+								}
+								c.Nonce = expand(seed, "nonce", nl)
 							}
 						}
 						emit(c)
@@ -1047,7 +1139,7 @@ func enums() []pbt.Enum[Case] {
 
 var prop = &pbt.Prop[Case]{
 	ID: "C10",
-	Rule: "cases: one direction {self, pkg->ref, ref->pkg, IdP->ref, ref->SP} x block cipher {AES-128/192/256-CBC, 3DES-CBC, AES-128-GCM} x key transport {direct, rsa-oaep-mgf1p with SHA-1/256/512/RIPEMD-160/constructor default, xmlenc11 rsa-oaep via OAEP_SHA256/OAEP_SHA512/SHA-1, PKCS#1 v1.5} x recipient RSA-1024/2048/3072/4096 x plaintext (length 0..4 blocks+1 exhaustively for every combination and direction, block multiples +-1 up to 80 blocks, random up to 4 KiB quick / 64 KiB thorough; zero, 0xFF, pseudo-random, XML and ASCII contents, padding-lookalike tails) x supplied or library-generated nonce; reference side with arbitrary padding filler, optional embedded certificate, wrapped base64, nested/sibling EncryptedKey. " +
+	Rule: "cases: one direction {self, pkg->ref, ref->pkg, IdP->ref, ref->SP} x block cipher {AES-128/192/256-CBC, 3DES-CBC, AES-128-GCM} x key transport {direct, rsa-oaep-mgf1p with SHA-1/256/512/RIPEMD-160/constructor default, xmlenc11 rsa-oaep via OAEP_SHA256/OAEP_SHA512/SHA-1, PKCS#1 v1.5} x recipient RSA-1024/2048/3072/4096 x plaintext (length 0..4 blocks+1 exhaustively for every combination and direction, block multiples +-1 up to 80 blocks, random up to 4 KiB quick / 64 KiB thorough; zero, 0xFF, pseudo-random, XML and ASCII contents, padding-lookalike tails) x supplied (GCM: 12 octets; CBC: 0..5 blocks, in particular longer than a block) or library-generated nonce; reference side with arbitrary padding filler, optional embedded certificate, omitted ds:DigestMethod (= SHA-1), wrapped base64, pretty printing, other namespace prefixes / default namespace, the optional schema parts without key material (KeySize, Recipient, KeyName, CarriedKeyName, EncryptionProperties), nested/sibling EncryptedKey with or without RetrievalMethod. " +
 		"non-trivial: every judged case (each is a distinct (direction, algorithm, transport, digest, key, length, contents) tuple). distinct: sha256 of the JSON case.",
 	Gen:   gen,
 	Check: check,
@@ -1064,7 +1156,8 @@ var prop = &pbt.Prop[Case]{
 	},
 	Assumptions: []string{
 		"'key of the right size' = the size the W3C algorithm identifier prescribes (AES 16/24/32, 3DES 24 octets); the RSA modulus must be able to carry the content key under the chosen padding (SHA-512 OAEP needs more than 1024 bits)",
-		"digest identifiers are taken as the package's registry spells them (xmldsig#sha256 etc.); the W3C spellings (xmlenc#sha256 …) and an absent DigestMethod are exercised but not judged (don't-care, only a panic or a wrong plaintext counts)",
+		"digest identifiers are taken as the package's registry spells them (xmldsig#sha256 etc.); the W3C spellings (xmlenc#sha256 …) are exercised but not judged (don't-care, only a panic or a wrong plaintext counts); an omitted ds:DigestMethod means SHA-1 (xmlenc-core 1.1 section 5.5.2, and the package's own RSA.Decrypt) and IS judged: a reference ciphertext made with SHA-1 and no DigestMethod element must open",
+		"the reference links its own non-registering copy of RIPEMD-160 (internal/refenc/rmd160): nothing in the harness makes crypto.RIPEMD160 available on the library's behalf",
 		"rsa-oaep-mgf1p uses MGF1-SHA-1 whatever the DigestMethod (xmlenc-core §5.4.2); xmlenc11 rsa-oaep: the reference names the mask function the package's constructor uses in an explicit xenc11:MGF element when it encrypts, and follows the W3C default (mgf1sha1) for a ciphertext without one",
 		"a supplied GCM nonce has 12 octets; for CBC the nonce argument is documented as unused and may be anything",
 		"OAEPparams (a non-empty OAEP label) is outside the property and not generated",
